@@ -452,8 +452,10 @@ def finish(ctx, err=None):
         cov.pop("transitions", None)
         cov.setdefault("evaluations", max(1, cov["traces_validated_against_impl"]))
         cov.setdefault("distinct_nontrivial", 0)
-    os.makedirs(os.path.join(ROOT, "evidence"), exist_ok=True)
-    with open(os.path.join(ROOT, "evidence", ctx.id + ".json"), "w") as f:
+    # tools/selftest (a run against a mutated scratch copy) must not overwrite the evidence of /repo
+    evdir = os.environ.get("VERIF_EVIDENCE_DIR") or os.path.join(ROOT, "evidence")
+    os.makedirs(evdir, exist_ok=True)
+    with open(os.path.join(evdir, ctx.id + ".json"), "w") as f:
         json.dump(ctx.ev.d, f, indent=1, sort_keys=True)
         f.write("\n")
     for sig, (k, what) in sorted(seen_known.items()):
